@@ -144,7 +144,7 @@ def check_case(case):
         res["nontrivial"] = True
     if viol:
         res["viol"] = viol
-    if zlib.crc32((mnem + text).encode()) % 30011 == 0:
+    if zlib.crc32((mnem + text).encode()) % 5003 == 0:
         res["sample"] = {"lines": lines, "outcome": common.outcome_brief(out)}
     return res
 
